@@ -482,6 +482,12 @@ SCRIPTED = [
      {"sh.f90": "module sh\n implicit none\n integer :: hits\nend module sh\n",
       "sv.f90": "program sv\n use sh\n implicit none\n hits = 1\nend program sv\n"},
      [("open", "sh.f90"), ("open", "sv.f90"), ("query", "sv.f90"), ("ins", "sh.f90", 2, 15, "_total"), ("close", "sh.f90"), ("open", "sh.f90"), ("save", "sh.f90")]),
+    ("the ancestor module of a submodule (in its own file, no USE) is edited and saved",
+     {"st_mod.f90": "module st_mod\n implicit none\n integer :: counter\n interface\n  module subroutine bump()\n  end subroutine bump\n end interface\nend module st_mod\n",
+      "st_impl.f90": "submodule (st_mod) st_impl\ncontains\n module subroutine bump()\n  counter = counter + 1\n end subroutine bump\nend submodule st_impl\n"},
+     [("open", "st_mod.f90"), ("open", "st_impl.f90"), ("query", "st_impl.f90"),
+      ("full", "st_mod.f90", "module st_mod\n implicit none\n ! now a real\n real(8) :: counter\n interface\n  module subroutine bump()\n  end subroutine bump\n end interface\nend module st_mod\n"),
+      ("save", "st_mod.f90")]),
     ("the parent module of a submodule is deleted",
      {"sq_par.f90": "module sq_par\n implicit none\n integer :: pvar\n interface\n  module subroutine foo()\n  end subroutine foo\n end interface\nend module sq_par\n",
       "sq_sub.f90": "submodule (sq_par) sq_sub\ncontains\n module subroutine foo()\n  pvar = 1\n end subroutine foo\nend submodule sq_sub\n"},
